@@ -440,6 +440,22 @@ func acctsOf(v string) string {
 }
 func acctField(v string, i int) string { return strings.Split(v, ";")[i-1] }
 
+// disarmedFamily: every listed account is a live cached object without callback and outside the dirty set, and the
+// harness saw a reverted touch that found its callback armed.
+func (h *hist) disarmedFamily(u *sut, xs []int) bool {
+	dirty := map[int]bool{}
+	for _, a := range u.s.VerifDirty() {
+		dirty[int(a[common.AddressLength-1])] = true
+	}
+	for _, x := range xs {
+		present, deleted, _, _, armed := u.s.VerifObj(addr(x))
+		if !(present && !deleted && !armed && !dirty[x] && u.disarmed[x]) {
+			return false
+		}
+	}
+	return true
+}
+
 // classifyLeaf: explain a disagreement between the account trie and the getters (J2/J3/J4/J6 failures).
 func (h *hist) classifyLeaf(u *sut) (kind, sig string) {
 	m := []int{}
@@ -509,7 +525,8 @@ func (h *hist) do(act string) bool {
 						isDirty = true
 					}
 				}
-				so.aTouch = so.existed && u.s.Empty(addr(x)) && (!present || armed) && !isDirty && x != 3
+				_ = isDirty // a Copy re-arms the callback of dirty objects, so an armed object may already be dirty
+				so.aTouch = so.existed && u.s.Empty(addr(x)) && (!present || armed) && x != 3
 				so.touch3 = so.existed && u.s.Empty(addr(x)) && x == 3
 			} else {
 				so.journ = so.existed
@@ -624,6 +641,11 @@ func (h *hist) do(act string) bool {
 			if k, s := h.classifyLeaf(u); k != "" {
 				h.obs = append(h.obs, ob+extra)
 				h.violate(k, s, "Copy() does not read back the original: "+fmt.Sprint(diffAddrs(view, cv)))
+				return false
+			}
+			if d := diffAddrs(view, cv); len(d) > 0 && auxOf(view) == auxOf(cv) && h.disarmedFamily(u, d) {
+				h.obs = append(h.obs, ob+extra)
+				h.violate(kindF2, sigF2, fmt.Sprintf("Copy() drops the cached modifications of accounts %v (no callback, not dirty after a reverted touch)", d))
 				return false
 			}
 			h.obs = append(h.obs, ob+extra)
@@ -774,22 +796,32 @@ func (h *hist) do(act string) bool {
 				h.violate(k, s, fmt.Sprintf("%s: history and erased history differ at accounts %v", act, d))
 				return false
 			}
+			if len(d) > 0 && h.disarmedFamily(u, d) {
+				h.violate(kindF2, sigF2, fmt.Sprintf("%s: accounts %v are cached without onDirty callback and outside the dirty set after a reverted touch; history and erased history differ there", act, d))
+				return false
+			}
 			if k, s := h.classifyLeaf(ru); k == kindF3 {
 				h.violate(k, s, fmt.Sprintf("%s: the erased history re-inserted a deleted empty account (accounts %v)", act, d))
 				return false
 			}
-			isF1 := f[1] == "1" && len(d) > 0 && auxOf(rv) == auxOf(view)
+			// F1 / F4: every differing account is a pre-existing empty account deleted by Finalise(true) although only reverted
+			// operations wrote (F1) or touched-as-0x03 (F4) it
+			okAll := f[1] == "1" && len(d) > 0 && auxOf(rv) == auxOf(view)
+			anyF1 := false
 			for _, x := range d {
 				present, deleted, suicided, _, _ := u.s.VerifObj(addr(x))
-				if !(acctField(view, x) == fmt.Sprintf("%d:-", x) && acctField(rv, x) == fmt.Sprintf("%d:0,0,-,s,0,0,0", x) && u.revWr[x] && present && deleted && !suicided) {
-					isF1 = false
+				shape := acctField(view, x) == fmt.Sprintf("%d:-", x) && acctField(rv, x) == fmt.Sprintf("%d:0,0,-,s,0,0,0", x) && present && deleted && !suicided
+				switch {
+				case shape && u.revWr[x]:
+					anyF1 = true
+				case shape && x == 3 && u.revT3:
+				default:
+					okAll = false
 				}
 			}
-			isF4 := f[1] == "1" && len(d) == 1 && d[0] == 3 && auxOf(rv) == auxOf(view) && u.revT3 && !u.revWr[3] &&
-				acctField(view, 3) == "3:-" && acctField(rv, 3) == "3:0,0,-,s,0,0,0"
-			if isF4 {
+			if okAll && !anyF1 {
 				h.violate(kindF4, sigF4, fmt.Sprintf("%s deleted the empty account 0x03 after a reverted touch (journal.go skips the undo for this address)", act))
-			} else if isF1 {
+			} else if okAll {
 				h.violate(kindF1, sigF1, fmt.Sprintf("%s deleted accounts %v, which only reverted operations wrote; the same history without the reverted segments keeps them", act, d))
 			} else {
 				h.violate("erased-history-differs", "erased-history-differs", fmt.Sprintf("%s: view %s root %s; erased history: view %s root %s", act, view, out, rv, rr))
